@@ -10,6 +10,14 @@ EXTENDS Grammar
 
 NoRepeat(a) == \A i, j \in DOMAIN a : i # j => a[i] # a[j]
 
+\* argument list with later repetitions of an object removed (what a name-keyed
+\* signature keeps) - used by the known deviation "RepeatedFluentArg"
+RECURSIVE DedupAux(_, _)
+DedupAux(a, seen) ==
+  IF a = <<>> THEN <<>>
+  ELSE IF a[1] \in seen THEN DedupAux(Tail(a), seen) ELSE <<a[1]>> \o DedupAux(Tail(a), seen \cup {a[1]})
+DedupArgs(a) == DedupAux(a, {})
+
 ----------------------------------------------------------------------------
 (* Supported fragment of formulas.  ctx = [preds, funcs : sets of names]    *)
 
@@ -161,6 +169,45 @@ TypeCorrectCall(D, objs, a, args) ==
   /\ \A i \in DOMAIN args :
         /\ TypeOfName(D, objs, args[i]) # "#none"
         /\ SubType(ParentOf(D.typeDecl), TypeOfName(D, objs, args[i]), a.params[i][2])
+
+----------------------------------------------------------------------------
+(* Grounding (C20): the literals and numeric expressions of a schema with   *)
+(* every parameter replaced, position by position, by the call's argument.  *)
+(* Quantified sub-formulas are not part of the reported grounding.          *)
+
+RECURSIVE LitsOfF(_), CmpsOfF(_)
+LitsOfF(f) ==
+  CASE f.k = "atom" -> {[pos |-> TRUE, p |-> f.p, a |-> f.a]}
+    [] f.k = "not" /\ f.f.k = "atom" -> {[pos |-> FALSE, p |-> f.f.p, a |-> f.f.a]}
+    [] f.k \in {"and", "or"} -> UNION {LitsOfF(f.fs[i]) : i \in DOMAIN f.fs}
+    [] OTHER -> {}
+CmpsOfF(f) ==
+  CASE f.k = "cmp" -> {f}
+    [] f.k \in {"and", "or"} -> UNION {CmpsOfF(f.fs[i]) : i \in DOMAIN f.fs}
+    [] OTHER -> {}
+
+RECURSIVE GroundExpr(_, _, _)
+GroundExpr(e, env, dedup) ==
+  CASE e.k = "fl"  -> [k |-> "fl", f |-> e.f, a |-> IF dedup THEN DedupArgs(Args(e.a, env)) ELSE Args(e.a, env)]
+    [] e.k = "bin" -> [e EXCEPT !.l = GroundExpr(e.l, env, dedup), !.r = GroundExpr(e.r, env, dedup)]
+    [] OTHER -> e
+
+\* type carried by an argument of a grounded literal: the parameter's type in
+\* the action, a constant's own type
+TermType(D, a, t) ==
+  IF \E i \in DOMAIN a.params : a.params[i][1] = t
+  THEN a.params[CHOOSE i \in DOMAIN a.params : a.params[i][1] = t][2]
+  ELSE TypeOfName(D, [x \in {} |-> "object"], t)
+
+GroundLit(D, a, env, l) ==
+  [pos |-> l.pos, p |-> l.p, a |-> Args(l.a, env), ty |-> [i \in DOMAIN l.a |-> TermType(D, a, l.a[i])]]
+
+\* one effect group as reported: adds, deletes, numeric updates
+GroundGroup(D, a, env, es, dedup) ==
+  [adds |-> {GroundLit(D, a, env, [pos |-> TRUE, p |-> es[i].p, a |-> es[i].a]) : i \in {j \in DOMAIN es : es[j].k = "add"}},
+   dels |-> {GroundLit(D, a, env, [pos |-> FALSE, p |-> es[i].p, a |-> es[i].a]) : i \in {j \in DOMAIN es : es[j].k = "del"}},
+   nums |-> {[op |-> es[i].op, t |-> GroundExpr([k |-> "fl", f |-> es[i].f, a |-> es[i].a], env, dedup), e |-> GroundExpr(es[i].e, env, dedup)]
+               : i \in {j \in DOMAIN es : es[j].k = "upd"}}]
 
 EnvOfCall(a, args) == [v \in {a.params[i][1] : i \in DOMAIN a.params} |->
                           args[CHOOSE i \in DOMAIN a.params : a.params[i][1] = v]]
